@@ -25,6 +25,8 @@ type C14Params struct {
 	StorePm int       `json:"store_pm"` // per-mille of store calls that draw a fault
 	Conns   []C14Conn `json:"conns"`
 	EMS     int       `json:"ems"`
+	// Forged: "" or the mode of a forged abbreviated handshake (see c14Forged)
+	Forged string `json:"forged,omitempty"`
 }
 
 func c14Counts(tier string) (int, int) {
@@ -38,6 +40,11 @@ func c14Counts(tier string) (int, int) {
 func c14Gen(r *rand.Rand, tier string, idx int) any {
 	p := &C14Params{Auth: []string{"psk", "cert"}[r.IntN(2)], CID: r.IntN(2) == 0, EMS: []int{0, 0, 2}[r.IntN(3)]}
 	p.StorePm = []int{0, 0, 100, 300, 600}[r.IntN(5)]
+	if r.IntN(8) == 0 {
+		p.Forged = []string{"empty-offer", "empty-offer", "echo-zero-secret", "echo-empty-secret", "fresh-id"}[r.IntN(5)]
+
+		return p
+	}
 	n := 2 + r.IntN(3)
 	for i := 0; i < n; i++ {
 		c := C14Conn{CTag: byte(16 * (i + 1)), STag: byte(16*(i+1) + 8)}
@@ -63,6 +70,11 @@ type c14Seen struct {
 func c14Run(rc *RunCtx, params any) {
 	p := params.(*C14Params)
 	s := rc.S
+	if p.Forged != "" {
+		c14Forged(rc, p)
+
+		return
+	}
 	rc.R.Class = fmt.Sprintf("%s/cid=%v/store%d", p.Auth, p.CID, p.StorePm)
 	rc.R.NonTriv = true
 	cstore, sstore := NewSimStore(s, "cstore", 0), NewSimStore(s, "sstore", 0)
@@ -301,4 +313,114 @@ func hmacKeyCanon(k []byte) []byte {
 	}
 
 	return k
+}
+
+// ---- a forged abbreviated handshake ----------------------------------------------------------
+
+// c14Forged: the real client (chain verification on, a session store that is empty or holds a
+// genuine earlier session) faces a scripted server built on refdtls that holds no credential and
+// no stored secret. It answers the ClientHello with ServerHello (session ID per mode),
+// ChangeCipherSpec and a Finished computed from a master secret it can know without any
+// credential - empty, or 48 zero bytes - as a server resuming a session would. The client may
+// fail or keep waiting for the rest of a full handshake; it must never report success.
+func c14Forged(rc *RunCtx, p *C14Params) {
+	s := rc.S
+	rc.R.Class = "forged-abbreviated/" + p.Forged
+	rc.R.NonTriv = true
+	rc.Note("proto", "dtls12")
+	cspec, sspec := certPair12(suiteECDSAGCM, "srv-ecdsa")
+	cspec.EMS, sspec.EMS = p.EMS, p.EMS
+	cstore := NewSimStore(s, "cstore", 0)
+	env := &Env{Stores: map[string]dtls.SessionStore{"cstore": cstore, "sstore": NewSimStore(s, "sstore", 0)}}
+	cspec.Store, sspec.Store = "cstore", "sstore"
+	if p.Forged != "empty-offer" && p.Forged != "fresh-id" {
+		// a genuine first connection, so that the client has a session to offer
+		n0 := NewSimNet(s, NetRules{})
+		p0, err := NewPairNamed(s, n0, cspec, sspec, env, "c0", "s0")
+		if err != nil {
+			rc.Violate("harness", "config: %v", err)
+
+			return
+		}
+		ok := p0.Establish(time.Minute)
+		p0.Teardown()
+		if !ok {
+			rc.Note("prelude-failed", "")
+
+			return
+		}
+	}
+	n := NewSimNet(s, NetRules{})
+	pair, err := NewPair(s, n, cspec, sspec, env)
+	if err != nil {
+		rc.Violate("harness", "config: %v", err)
+
+		return
+	}
+	defer pair.Teardown()
+	col := NewHsCollector()
+	answered := false
+	n.Rewrite = func(em *Emission) []byte {
+		if em.Ep != "c" {
+			return nil // the pair's real server stays silent
+		}
+		if answered {
+			return nil
+		}
+		col.Feed(*em, 0)
+		chs := col.Of("c", HTClientHello)
+		if len(chs) == 0 {
+			return nil
+		}
+		answered = true
+		chm := chs[len(chs)-1]
+		ch, perr := ParseClientHello(chm.Body)
+		if perr != nil {
+			return nil
+		}
+		sid := []byte{}
+		switch p.Forged {
+		case "echo-zero-secret", "echo-empty-secret":
+			sid = ch.SessionID
+			if len(sid) == 0 {
+				s.Probe("client-offered-no-session")
+			}
+		case "fresh-id":
+			sid = bytes.Repeat([]byte{0x77}, 32)
+		}
+		master := []byte{}
+		if p.Forged == "echo-zero-secret" {
+			master = make([]byte, 48)
+		}
+		srand := bytes.Repeat([]byte{0xb7}, 32)
+		sh := append([]byte{0xfe, 0xfd}, srand...)
+		sh = append(sh, byte(len(sid)))
+		sh = append(sh, sid...)
+		sh = append(sh, byte(suiteECDSAGCM>>8), byte(suiteECDSAGCM&0xff), 0)
+		if _, ems := ch.Ext(ExtEMS); ems && p.EMS != 2 {
+			sh = append(sh, 0, 4, 0, byte(ExtEMS), 0, 0)
+		}
+		ref, rerr := NewRef12(suiteECDSAGCM, master, ch.Random, srand)
+		if rerr != nil {
+			return nil
+		}
+		shMsg := &HsMsg{Type: HTServerHello, MsgSeq: 0, Body: sh}
+		transcript := append(chm.TranscriptForm(), shMsg.TranscriptForm()...)
+		fin := dtlsHs(HTFinished, 1, ref.VerifyData12(false, transcript))
+		d := plaintextRecord(CTHandshake, 0, dtlsHs(HTServerHello, 0, sh))
+		d = append(d, plaintextRecord(CTChangeCipherSpec, 1, []byte{1})...)
+		d = append(d, ref.Seal(false, CTHandshake, 1, 0, nil, false, fin, 0)...)
+		s.Fault("forged-abbreviated-handshake:" + p.Forged)
+		n.Inject(time.Millisecond, pair.SAddr, pair.CAddr, d)
+
+		return nil
+	}
+	pair.StartHandshakes(20 * time.Second)
+	s.Run(func() bool { return pair.CHs.Done }, 30*time.Second)
+	if pair.CHs.Done && pair.CHs.Err == nil {
+		rc.Violate("forged-abbreviated-accepted:"+p.Forged, "the client reports a successful handshake with a peer that sent only ServerHello, ChangeCipherSpec and a Finished keyed from a master secret anyone can compute (mode %s): no certificate, no key exchange, no shared secret", p.Forged)
+
+		return
+	}
+	s.Probe("forged-abbreviated-rejected:" + p.Forged)
 }
